@@ -986,3 +986,45 @@ func (c PrepareCallInstr) execute(env *Zlisp) error {
 	}
 	return nil
 }
+
+// TailCallInstr ends a function whose last form calls a function of the
+// same name. The arguments are on the data stack. If the name still refers
+// to the running function, its scopes are popped and execution restarts at
+// the top of the function; if the name has been re-bound to another
+// function (an inner defn, a parameter, a local) this is an ordinary call.
+type TailCallInstr struct {
+	sym    *SexpSymbol
+	nargs  int
+	scopes int
+}
+
+func (c TailCallInstr) InstrString() string {
+	return fmt.Sprintf("tail-call %s %d", c.sym.name, c.nargs)
+}
+
+func (c TailCallInstr) Execute(env *Zlisp) error {
+	funcobj, err, _ := env.LexicalLookupSymbol(c.sym, nil)
+	if err != nil {
+		return err
+	}
+	f, isFun := funcobj.(*SexpFunction)
+	self := isFun && !f.user && env.curfunc != nil && !env.curfunc.user &&
+		len(f.fun) > 0 && len(f.fun) == len(env.curfunc.fun) && &f.fun[0] == &env.curfunc.fun[0]
+	if !self {
+		return CallInstr{c.sym, c.nargs}.Execute(env)
+	}
+	if f.varargs {
+		if err := env.wrangleOptargs(f.nargs, c.nargs); err != nil {
+			return err
+		}
+	} else if c.nargs != f.nargs {
+		return fmt.Errorf("%s expected %d arguments, got %d", f.name, f.nargs, c.nargs)
+	}
+	for i := 0; i < c.scopes; i++ {
+		if err := env.linearstack.PopScope(); err != nil {
+			return err
+		}
+	}
+	env.pc = 0
+	return nil
+}
